@@ -385,6 +385,18 @@ Definition request_at (sp : sproposal) (w : option N) (deadline st : N) : ureq :
   | _, _ => unblind_request sp
   end.
 
+(* when a relay goroutine that supplies nothing ends: after its last call, plus the 250 ms it sleeps
+   before noticing that no try is left when that call failed with a retryable error *)
+Definition plan_end (cs : list call) : N :=
+  match rev cs with
+  | [] => 0
+  | k :: _ => k_finish k + (if is_retry (k_out k) then retry_ms else 0)
+  end.
+
+(* when the last of them ends (relays that are not asked have no goroutine) *)
+Definition all_failed_at (plans : list (list call)) : N :=
+  fold_right (fun cs acc => N.max (plan_end cs) acc) 0 plans.
+
 (* the relays asked to unblind: those of the winning bid, or all *)
 Definition candidates (c : config) (winners all : list nat) : list nat :=
   if Nat.eqb (length winners) 0 || c_unblind_all c then all else winners.
@@ -424,7 +436,11 @@ Definition deliver_phase (c : config) (e : env) (evs : list event) (sp : spropos
                o_ret := t |}
         end
       else {| o_panic := false; o_events := evs; o_unblind := calls; o_submit := None; o_ret := e_deadline e |}
-  | None => {| o_panic := false; o_events := evs; o_unblind := calls; o_submit := None; o_ret := e_deadline e |}
+  | None =>
+      (* no relay ever supplies a block: the collector returns when the last relay goroutine has
+         given up, or when the context is done, whichever comes first *)
+      {| o_panic := false; o_events := evs; o_unblind := calls; o_submit := None;
+         o_ret := N.min (e_deadline e) (all_failed_at plans) |}
   end
   end.
 
@@ -459,7 +475,7 @@ Definition distinct (l : list N) : bool := forallb (fun t => Nat.eqb (count_eq t
 Definition tie_free (deadline : N) (plans : list (list call)) : bool :=
   distinct (finishes plans)
   && match first_delivery plans with
-     | None => true
+     | None => negb (all_failed_at plans =? deadline)   (* the collector's select has both cases ready *)
      | Some w => negb (w =? deadline)
                  && Nat.leb (count_eq w (starts plans))
                             (count_eq w (map k_start (filter (fun k => is_ok (k_out k) && (k_finish k =? w)) (concat plans))))
